@@ -380,7 +380,29 @@ def proof_stage(ctx, search_on_failure):
         "checker_cmd": "coq_makefile -f coq/%s/_CoqProject && make (coqc 8.16.1, full .vo) ; Print Assumptions on every theorem of coq/%s/Property.v" % (prop, prop),
         "theorems": names, "axioms_per_theorem": ass, "axioms": axioms,
     })
+    if not ctx.quick and os.environ.get("VERIF_NO_COQCHK") != "1":
+        coqchk_stage(ctx)
     return True
+
+
+def coqchk_stage(ctx):
+    """thorough tier: re-check <prop>.Property (and everything it depends on) with the independent checker coqchk and
+    record its context summary (axioms of every loaded library, type-in-type, unsafe fixpoints, assumed positivity)."""
+    prop = ctx.prop
+    cmd = ["coqchk", "-silent", "-o"] + qflags(prop) + ["%s.Property" % prop]
+    t0 = time.time()
+    rc, out = sh(["timeout", "2400"] + cmd, timeout=2500, cwd=os.path.join(COQ, prop))
+    summ = out[out.find("CONTEXT SUMMARY"):] if "CONTEXT SUMMARY" in out else out[-1500:]
+    info = {"cmd": " ".join(cmd), "rc": rc, "wall_s": round(time.time() - t0, 1), "summary": " ".join(summ.split())[:3000]}
+    ctx.coverage["coqchk"] = info
+    if rc in (124, 137):
+        ctx.say("coqchk did not finish within its time limit (recorded in the evidence; not a violation)")
+    elif rc != 0:
+        ctx.violation({"kind": "coqchk-rejected", "coqchk": info}, no_input=True)
+    else:
+        bad = [k for k in ("type-in-type", "unsafe (co)fixpoints", "positivity is assumed") if re.search(re.escape(k) + r":\s*(?!<none>)\S", summ)]
+        if bad:
+            ctx.violation({"kind": "coqchk-unsafe-flags", "flags": bad, "coqchk": info}, no_input=True)
 
 
 def run_shards(ctx, shards, timeout=900):
